@@ -19,7 +19,8 @@ BIG = sessions.BIGBUF
 class Sim:
     """the automaton + script emitter for the party under test P and its cooperating peer Q"""
 
-    def __init__(self, case, parsed, p_init):
+    def __init__(self, case, parsed, p_init, late=None):
+        self.late = dict(late or {})  # psk index -> key, not given to P's builder: installed just before the message that needs it
         self.c = case
         self.n = parsed.nmsgs
         self.oneway = parsed.oneway
@@ -52,11 +53,20 @@ class Sim:
             else:
                 self.act("R")
 
+    def _late_psks(self, upto_all=False):
+        """install the PSKs P needs for the message at the current position (all remaining ones if upto_all)"""
+        for n in sorted(self.late):
+            need = 0 if n == 0 else n - 1
+            if upto_all or need == self.pos:
+                self.c.op("set_psk", "P", loc=n, key=self.late.pop(n))
+
     def act(self, a, judged=True):
         c = self.c
         self.k += 1
         k = self.k
         if self.phase == "hs":
+            if a in ("W", "R") and not self.fin() and ((a == "W") == self.turn()):
+                self._late_psks()
             if a == "W":
                 ok = self.turn() and not self.fin()
                 lab = c.op("hs_write", "P", pay="gen:3:w%d" % k, buf=BIG, out="p%d" % k)
@@ -129,6 +139,8 @@ class Sim:
             elif a in ("tr", "trg"):
                 kw = {"n": self.qn} if st else {}
                 if self.oneway and self.p_init:
+                    if st and k % 2 == 0:
+                        kw = {"n": 2**64 - 1}
                     lab = c.op("st_read" if st else "t_read", "P", msg="gen:30:z%d" % k, buf=BIG, **kw)
                     exp = "err:State(OneWay)"
                 elif a == "trg":
@@ -162,6 +174,7 @@ class Sim:
         """after the sequence: the session must still work (out-of-phase calls had no effect)"""
         c = self.c
         if self.phase == "hs":
+            self._late_psks(upto_all=True)
             a, b = ("P", "Q") if self.p_init else ("Q", "P")
             self.c.meta["final"] = ("pp", c.op("pingpong", a=a, b=b, max=8, plen=2, seed="fin"))
         elif self.phase in ("tr", "sl") and not (self.oneway and not self.p_init):
@@ -227,6 +240,10 @@ class CheckC11(core.Check):
                 for k0 in range(parsed.nmsgs + 1):
                     for seq in sequences(parsed, role == "i", k0, depth):
                         descs.append((name, role, k0, "".join(a + "," for a in seq)))
+                    if parsed.psks:
+                        # the same party with its PSKs installed late (set_psk just before the message that needs them)
+                        for seq in sequences(parsed, role == "i", k0, depth - 1):
+                            descs.append((name, role, k0, "".join(a + "," for a in seq), "late"))
         self.exhaustive = True
         nrand = 4000 if self.tier == "quick" else 150000
         for _ in range(nrand):
@@ -237,17 +254,19 @@ class CheckC11(core.Check):
         return descs
 
     def build(self, desc):
-        name, role, k0, seqs = desc
+        name, role, k0, seqs = desc[:4]
+        late = len(desc) > 4
         parsed = parse_name_simple(name)
         keys = sessions.Keys(parsed, 5)
-        c = Case("sm-%s-%s-%d-%s" % (name, role, k0, seqs.replace(",", ".")), desc)
+        c = Case("sm-%s-%s-%d-%s%s" % (name, role, k0, seqs.replace(",", "."), "-late" if late else ""), desc)
         p_init = role == "i"
         ids = ("P", "Q") if p_init else ("Q", "P")
-        sessions.add_pair(c, parsed, keys, rng=("script:1", "script:2"), rec=("-", "-"), ids=ids)
+        lateset = tuple(parsed.psks) if late else ()
+        sessions.add_pair(c, parsed, keys, rng=("script:1", "script:2"), rec=("-", "-"), ids=ids, late=(lateset, ()) if p_init else ((), lateset))
         # control: an undisturbed session of the same configuration must complete (else nothing below is C11's doing)
         sessions.add_pair(c, parsed, keys, rng=("script:1", "script:2"), rec=("-", "-"), ids=("P2", "Q2") if p_init else ("Q2", "P2"))
         c.meta["control"] = c.op("pingpong", a="P2" if p_init else "Q2", b="Q2" if p_init else "P2", max=8, plen=2, seed="ctl")
-        sim = Sim(c, parsed, p_init)
+        sim = Sim(c, parsed, p_init, late={n: keys.psks[n] for n in lateset})
         sim.prefix(k0)
         if seqs.startswith("rand:"):
             _, sd, ln = seqs.split(":")
@@ -268,7 +287,7 @@ class CheckC11(core.Check):
         sim.finish()
         c.meta["exp"] = sim.exp
         c.meta["inphase_failure"] = sim.inphase_failure
-        c.info = {"name": name, "key": (name, role, k0, seqs)}
+        c.info = {"name": name, "key": (name, role, k0, seqs, late)}
         return c
 
     def judge(self, case, events, death):
